@@ -170,6 +170,11 @@ pub fn matrix(expression: Expression) -> Expression {
                     matrix = true;
                 }
             }
+            // NOTE: A column is keyed by `char::from_u32(index)`, which does not exist for the surrogate
+            // range, so a group with more fields than that is left as it is.
+            if fields.len() > 0xD800 {
+                matrix = false;
+            }
 
             if matrix {
                 let mut columns: Vec<(String, u32)> = fields.into_iter().collect();
